@@ -274,20 +274,44 @@ func baseKind(kind string) string {
 	return kind
 }
 
-// runHorizon executes a case whose dispatch arm starts goroutines (WriterTo) with a
-// horizon that turns a hang into a verdict: 30 s for an operation of microseconds, 3 of 3.
-func runHorizon(opts []runtime.CSVOpt, kind string, text string, o Opts, pre int, table [][]string, attempts int) Outcome {
+// codec is one CSVConsumer / CSVProducer instance (built on first use). A fresh one per call is
+// the single-call space; one shared by consecutive calls is the shared-instance sequence space.
+type codec struct {
+	opts []runtime.CSVOpt
+	cons runtime.Consumer
+	prod runtime.Producer
+}
+
+func newCodec(opts []runtime.CSVOpt) *codec { return &codec{opts: opts} }
+
+func (c *codec) consumer() runtime.Consumer {
+	if c.cons == nil {
+		c.cons = runtime.CSVConsumer(c.opts...)
+	}
+	return c.cons
+}
+
+func (c *codec) producer() runtime.Producer {
+	if c.prod == nil {
+		c.prod = runtime.CSVProducer(c.opts...)
+	}
+	return c.prod
+}
+
+// horizon runs f (a body whose dispatch arm starts goroutines: WriterTo) with a horizon that
+// turns a hang into a verdict: 30 s for an operation of microseconds, `attempts` times.
+func horizon[T any](attempts int, f func() T) (res T, hang bool) {
 	for attempt := 1; ; attempt++ {
-		ch := make(chan Outcome, 1)
-		go func() { ch <- run1(opts, kind, text, o, pre, table) }()
+		ch := make(chan T, 1)
+		go func() { ch <- f() }()
 		tm := time.NewTimer(30 * time.Second)
 		select {
-		case out := <-ch:
+		case res = <-ch:
 			tm.Stop()
-			return out
+			return res, false
 		case <-tm.C:
 			if attempt >= attempts {
-				return Outcome{Hang: true}
+				return res, true
 			}
 		}
 	}
@@ -302,25 +326,34 @@ type slot struct {
 	since atomic.Int64
 }
 
-// run executes the case on the real codec. text is the CSV text; table is the parsed record
-// table for the record-table source kinds (ignored otherwise).
-func run(sl *slot, opts []runtime.CSVOpt, kind string, text string, o Opts, pre int, table [][]string) Outcome {
+func (sl *slot) begin(c *Case) {
+	sl.since.Store(time.Now().UnixNano())
+	sl.c.Store(c)
+}
+func (sl *slot) end() { sl.c.Store(nil) }
+
+// run executes one call on a fresh codec instance. text is the CSV text; table is the parsed
+// record table for the record-table source kinds (ignored otherwise).
+func run(sl *slot, opts []runtime.CSVOpt, kind string, text string, o Opts, pre int, table [][]string) (out Outcome) {
 	if !usesGoroutines(kind) {
-		return run1(opts, kind, text, o, pre, table)
+		return run1(newCodec(opts), kind, text, o, pre, table)
 	}
 	if sl == nil {
-		return runHorizon(opts, kind, text, o, pre, table, 3)
+		out, hang := horizon(3, func() Outcome { return run1(newCodec(opts), kind, text, o, pre, table) })
+		if hang {
+			return Outcome{Hang: true}
+		}
+		return out
 	}
-	sl.since.Store(time.Now().UnixNano())
-	sl.c.Store(&Case{Kind: kind, Text: text, Opts: o, Pre: pre})
-	out := run1(opts, kind, text, o, pre, table)
-	sl.c.Store(nil)
+	sl.begin(&Case{Kind: kind, Text: text, Opts: o, Pre: pre})
+	out = run1(newCodec(opts), kind, text, o, pre, table)
+	sl.end()
 	return out
 }
 
-func run1(opts []runtime.CSVOpt, kind string, text string, o Opts, pre int, table [][]string) (out Outcome) {
+func run1(cd *codec, kind string, text string, o Opts, pre int, table [][]string) (out Outcome) {
 	if isConsume(kind) {
-		cons := runtime.CSVConsumer(opts...)
+		cons := cd.consumer()
 		var in io.Reader = plainReader{strings.NewReader(text)}
 		if strings.HasSuffix(kind, "/1byte-input") {
 			in = iotest.OneByteReader(in)
@@ -368,7 +401,7 @@ func run1(opts []runtime.CSVOpt, kind string, text string, o Opts, pre int, tabl
 		}
 		return out
 	}
-	prod := runtime.CSVProducer(opts...)
+	prod := cd.producer()
 	var data interface{}
 	switch baseKind(kind) {
 	case "from:*csv.Reader":
@@ -443,4 +476,60 @@ func aliased(t [][]string) string {
 		}
 	}
 	return ""
+}
+
+// ---- shared-instance sequences ----
+
+// seqTable: the record table a record-table source call hands over (nil, false when the text
+// does not parse under the reader options: the call does not exist then).
+func seqTable(call Call, o Opts) ([][]string, bool) {
+	if !tableSource(call.Kind) {
+		return nil, true
+	}
+	w := parse(call.Text, readerOpts(o))
+	return w.recs, w.err == nil
+}
+
+// runSeq executes the calls one after the other on ONE codec instance (fresh destinations and
+// sources per call: only the CSVConsumer / CSVProducer value is shared).
+func runSeq(opts []runtime.CSVOpt, o Opts, calls []Call) []Outcome {
+	cd := newCodec(opts)
+	outs := make([]Outcome, len(calls))
+	for i, c := range calls {
+		table, _ := seqTable(c, o)
+		outs[i] = run1(cd, c.Kind, c.Text, o, c.Pre, table)
+	}
+	return outs
+}
+
+func seqUsesGoroutines(calls []Call) bool {
+	for _, c := range calls {
+		if usesGoroutines(c.Kind) {
+			return true
+		}
+	}
+	return false
+}
+
+// outKey is everything observable of one call, for the differential comparison of a call on a
+// shared instance with the same call on a fresh instance.
+func outKey(kind string, out Outcome) string {
+	switch {
+	case out.Hang:
+		return "hang"
+	case out.Panic != "":
+		return "panic: " + out.Panic
+	case out.Err != nil:
+		if anyErrorOK(kind) {
+			return "error"
+		}
+		return "error: " + out.Err.Error()
+	case out.HasRaw:
+		return fmt.Sprintf("bytes %q", out.Raw)
+	}
+	k := fmt.Sprintf("records %q", out.Recs)
+	if out.Alias != "" {
+		k += " aliased"
+	}
+	return k
 }
